@@ -50,7 +50,7 @@ def struct_run(scripts, timeout=3000):
 
 def first_diff(hl, ml):
     for j, (h, m) in enumerate(zip(hl, ml)):
-        if m == "-": continue
+        if m == "-" or h == "SKIPPED": continue
         if strip(h) != m: return j
     if len(hl) != len(ml): return min(len(hl), len(ml))
     return None
